@@ -104,7 +104,7 @@ inductive WOp where
   deriving DecidableEq, Repr
 
 inductive Res where
-  | ok | dupKey | retry | nothingToCommit
+  | ok | dupKey | retry | nothingToCommit | unsupported
   deriving DecidableEq, Repr
 
 def setCol : Row → Nat → Cell → Row
@@ -151,12 +151,16 @@ structure Sess where
   snap : WS := ⟨[], [], [], false, false⟩   -- start state: working set + head resolved at the tx-start root
   work : Root := []           -- own working root
   log : List WOp := []        -- ghost: own successful writes since tx start
+  snapO : Root := []          -- start root of the OTHER database (`dbStartPoints` has one root per database)
+  workO : Root := []          -- own working root of the other database
 
 structure World where
   shared : WS
   sess : Nat → Sess
   /-- ghost: (start working root, committed working root) of every acknowledged commit, oldest first -/
   commits : List (Root × Root) := []
+  /-- working root of table `otherdb.t` of a second database on the same provider -/
+  other : Root := []
 
 def World.init : World := { shared := ⟨[], [], [], false, false⟩, sess := fun _ => {} }
 
@@ -167,18 +171,23 @@ inductive Stmt where
   | begin | commit | rollback | read
   | write (op : WOp)
   | dcommit            -- CALL dolt_commit('-Am', …)
+  | readO              -- SELECT * FROM otherdb.t
+  | writeO (op : WOp)  -- DML on otherdb.t (modelled for autocommit statements only)
   | setAuto (b : Bool)
   deriving Repr
 
-/-- `StartTransaction`: snapshot of the branch state -/
+/-- `StartTransaction`: snapshot of the branch state of EVERY database of the provider
+(`NewDoltTransaction(ctx, txDbs)` with `txDbs` = all `d.provider.DoltDatabases()`) -/
 def startTx (w : World) (i : Nat) (explicit : Bool) : World :=
   let s := w.sess i
-  setSess w i { s with active := true, explicit := explicit, snap := w.shared, work := w.shared.working, log := [] }
+  setSess w i { s with
+    active := true, explicit := explicit, snap := w.shared, work := w.shared.working, log := []
+    snapO := w.other, workO := w.other }
 
 /-- `Rollback` / `clear`: the working copy is thrown away; the next statement starts a new transaction -/
 def endTx (w : World) (i : Nat) (keepExplicit : Bool) : World :=
   let s := w.sess i
-  setSess w i { s with active := false, explicit := keepExplicit && s.explicit, work := [], log := [] }
+  setSess w i { s with active := false, explicit := keepExplicit && s.explicit, work := [], log := [], workO := [] }
 
 /-- `workingAndStagedEqual(existingWs, startState)`: nobody committed since the transaction began -/
 def isFF (E S : WS) : Bool := rootEq E.working S.working && (rootEq E.staged S.staged && E.sArt == S.sArt)
@@ -209,6 +218,11 @@ def doCommit (E S : WS) (W St : Root) (dolt : Bool) : Option WS :=
       else ((mergeRoots ms.1 E.head S.head).1, ms.2 || !(mergeRoots ms.1 E.head S.head).2.isEmpty)
     some ⟨mw.1, st.1, st.1, st.2, st.2⟩
   else some ⟨mw.1, ms.1, E.head, ms.2, E.hArt⟩
+
+/-- commit of the other database's working root (same `doCommit`: ff, else three-way merge) -/
+def commitOther (E S W : Root) : Option Root :=
+  if rootEq E S then some W
+  else if (mergeRoots E W S).2.isEmpty then some (mergeRoots E W S).1 else none
 
 /-- COMMIT (or the implicit commit of autocommit / BEGIN / SET autocommit=1) -/
 def commitTx (w : World) (i : Nat) (keepExplicit : Bool) : World × Res :=
@@ -265,6 +279,24 @@ def step (w : World) (i : Nat) : Stmt → World × Res × Option Root
       | some ws => (endTx { w1 with shared := ws, commits := w1.commits ++ [(s.snap.working, s.work)] } i true, .ok, none)
       -- validateWorkingSetForCommit → tx.rollback: SetTransaction(nil), SetIgnoreAutoCommit(false)
       | none => (endTx w1 i false, .retry, none)
+  | .readO =>
+    let w1 := ensureTx w i
+    let rows := (w1.sess i).workO
+    let (w2, r) := endStmt w1 i
+    (w2, r, some rows)
+  | .writeO op =>
+    let w1 := ensureTx w i
+    let s := w1.sess i
+    if s.autocommit && !s.explicit then
+      match applyOp op s.workO with
+      | (t, .ok) =>
+        match commitOther w1.other s.snapO t with
+        | some o => let (w2, r) := commitTx { w1 with other := o } i true; (w2, r, none)
+        | none => (endTx w1 i true, .retry, none)
+      | (_, e) => (endTx w1 i true, e, none)
+    else
+      -- writing two databases in one multi-statement transaction is outside the statement family
+      (w1, .unsupported, none)
   | .setAuto b =>
     if b then
       -- SET autocommit=1 commits the open transaction
